@@ -581,13 +581,40 @@ func coordinate(ch *Check, tier string, seed int64) int {
 		keys = append(keys, k)
 	}
 	sort.Strings(keys)
+	// replay order: interleave the clauses (second path component of the key), so that one
+	// noisy clause cannot use up the replay budget before the others are looked at
+	{
+		clauseOf := func(k string) string {
+			parts := strings.SplitN(k, "/", 3)
+			if len(parts) >= 2 {
+				return parts[1]
+			}
+			return k
+		}
+		rank := map[string]int{}
+		type kr struct {
+			k string
+			r int
+		}
+		var krs []kr
+		for _, k := range keys {
+			c := clauseOf(k)
+			krs = append(krs, kr{k, rank[c]})
+			rank[c]++
+		}
+		sort.SliceStable(krs, func(a, b int) bool { return krs[a].r < krs[b].r })
+		for i := range krs {
+			keys[i] = krs[i].k
+		}
+	}
 	known := loadKnown()
 	exit := 0
 	nviol := 0
 	harnessErr := false
 	knownPrinted := map[string]bool{}
 	var violSamples []map[string]string
-	confirmed := 0
+	confirmed := 0 // unlisted classes that reproduced on replay
+	attempts := 0  // unlisted classes replayed
 	skippedKeys := 0
 	for _, k := range keys {
 		// replaying every class of a badly broken tree would take hours: confirm the
@@ -599,14 +626,14 @@ func coordinate(ch *Check, tier string, seed int64) int {
 			}
 		}
 		if !isListed {
-			if confirmed >= 6 {
+			if confirmed >= 6 || attempts >= 40 {
 				skippedKeys++
 				if os.Getenv("VERIF_VERBOSE") != "" {
 					fmt.Printf("  unreplayed class: %s (%d)  e.g. %s\n", k, merged.ViolKeys[k], clip(byKey[k][0].Witness, 200))
 				}
 				continue
 			}
-			confirmed++
+			attempts++
 		}
 		vs := byKey[k]
 		sort.Slice(vs, func(a, b int) bool {
@@ -641,6 +668,9 @@ func coordinate(ch *Check, tier string, seed int64) int {
 			fmt.Printf("HARNESS-ERROR property=%s key=%q: violation did not reproduce on replay (%d/%d): %s\n", ch.ID, k, ok, reps, file)
 			harnessErr = true
 			continue
+		}
+		if !isListed {
+			confirmed++
 		}
 		isKnown := false
 		for _, kf := range known {
